@@ -550,7 +550,16 @@ func (b BindlistInstr) Execute(env *Zlisp) error {
 	}
 
 	for i, bindThisSym := range b.syms {
-		env.LexicalBindSymbol(bindThisSym, arr[i])
+		// mdef declares its targets afresh each time it runs: the range
+		// macro and "for k, v := range" execute it once per element, and
+		// the elements of a hash or array need not all have the type of
+		// the first one. Drop the binding of the previous iteration (if
+		// any) instead of re-assigning it under the variable type rule.
+		env.linearstack.DeleteSymbolFromTopOfStackScope(bindThisSym)
+		err := env.LexicalBindSymbol(bindThisSym, arr[i])
+		if err != nil {
+			return err
+		}
 	}
 	env.pc++
 	return nil
